@@ -182,7 +182,7 @@ def check_c01(ctx):
     ctx.cov["constants"]["Gen_C01_exhaustive"] = g1
     cases += gen(ctx, "Gen_C01.cfg", g1, timeout=1500)
     # reloads that change one thing only (a removal, one re-addition, one weight), exhaustively for 3 backends
-    g3 = {"N": 3, "WLO": 0, "WHI": 2, "PICKS": 7, "UPDATES": 1, "OPS": 9, "SCALE": 100, "FOCUS": "TRUE"} if q else \
+    g3 = {"N": 3, "WLO": 0, "WHI": 2, "PICKS": 7, "UPDATES": 1, "OPS": 9, "SCALE": 100, "FOCUS": "TRUE", "ANYORDER": "FALSE"} if q else \
          {"N": 3, "WLO": 0, "WHI": 3, "PICKS": 10, "UPDATES": 1, "OPS": 12, "SCALE": 100, "FOCUS": "TRUE"}
     ctx.cov["constants"]["Gen_C01_focus"] = g3
     cases += gen(ctx, "Gen_C01.cfg", g3, timeout=1500)
@@ -331,7 +331,7 @@ def check_c09(ctx):
     mc = {"SUBS": "", "RELOADS": 2, "TOUCH": 1} if q else {"SUBS": "", "RELOADS": 2, "TOUCH": 2}
     ctx.cov["constants"]["MC_Reload"] = mc
     ctx.tlc_must_pass("Balancer", "Reload", "MC_Reload.cfg", defines=mc, timeout=2400)
-    g = {"RELOADS": 4, "TOUCH": 4, "OPS": 12}
+    g = {"RELOADS": 4, "TOUCH": 4, "OPS": 12, "BACKS": '"b1", "b3"' if q else '"b1", "b2", "b3"'}
     r = ctx.tlc("Balancer", "GenReload", "Gen_Reload.cfg", mode="sim", sim_num=150 if q else 1500, sim_depth=16,
                 defines=g, timeout=1800, count=False)
     if not r.ok or not r.cases:
